@@ -20,22 +20,49 @@ THEOREMS = [
     (M, "C01.val_inside_fmt", "every entity's value span lies inside the entity, except the two degenerate encodings stated per format (inc: absent group (-1,-1); DTD: lone quote (p+1,p))"),
     (M, "C01.val_inside", "format-independent union of the above"),
     (M, "C01.key_inside", "every entity's key span lies inside its own span (all five regex formats)"),
+    # round 4
+    (M, "C01.localizable_view_eq_filter", "all texts, per regex format: walk() and list(parser) both terminate and list(parser) is exactly the Entity/Junk entries of walk() (each on a fresh context)"),
+    (M, "C01.ctx_localizable_is_filter", "for a context in ANY state of filter_empty_lines: the two views agree and leave the same state"),
+    (M, "C01.sess_walk_then_iter", "readUnicode; walk(); list(parser) on ONE object, all five formats, all texts: the second result is the Entity/Junk entries of the first (DefinesParser.walk resets filter_empty_lines at walk start)"),
+    (M, "C01.sess_iter_then_walk", "the other order: list(parser) then walk() on one context"),
+    (M, "C01.sess_read_resets", "readUnicode always starts from a fresh context"),
+    (M, "C01.sess_noctx", "walk()/iter() of a parser without context yield nothing"),
+    (M, "C01.dead_base_late_whitespace", "base.py:417 (late `return white_space` of Parser.getNext) is dead: any value there gives the same function"),
+    (M, "C01.dead_props_late_whitespace", "properties.py:107 is dead"),
+    (M, "C01.dead_defines_late_whitespace", "defines.py:91 is dead"),
+    (M, "C01.fluentC_lossless", "fluent: for every text and every fluent.syntax body satisfying the decidable contract contractB the walk (reading entry.content) is lossless; no side hypothesis left"),
+    (M, "C01.fluentC_chain", "fluent: the entries form a gap-free, overlap-free chain over [0, len) (nothing duplicated or reordered)"),
+    (M, "C01.fluentC_inside", "fluent: every entity's key lies inside its text, and so does its value unless it has none"),
+    (M, "C01.fluentC_localizable_is_filter", "fluent: list(parser) = Entity/Junk entries of walk()"),
+    (M, "C01.parser_regexes_safe", "DECIDED on the regenerated regexes: every repeat of every parser regex has a body with at most one outcome per state (no ambiguous nested quantifier); DTDParser.rePE is outside the criterion"),
+    (M, "C01.parser_regex_steps_poly", "PROVED: for those regexes the backtracking search tree of one match attempt has at most cC*(len+2)^dC nodes (dC <= 5; PoParser.reListItem: 18*(len+2)^2)"),
+    (M, "C01.parser_regex_match_poly", "PROVED: the step-counting copy of the engine returns what matchAt returns and makes at most cC*(len+2)^dC calls"),
 ]
 LEVEL_TEXT = ("Lean 4 theorems, for ALL texts with no length bound: the walk of each of the five regex parsers terminates, its entries tile "
-              "the text and their concatenation is the input (DTD: minus a leading BOM); the localizable view is the entity+junk filter; "
-              "entity key spans lie inside the entity; the Fluent walk is lossless under the monitored span contract of fluent.syntax. "
+              "the text and their concatenation is the input (DTD: minus a leading BOM); both views exist and the localizable view is the "
+              "entity+junk filter of the full view for a context in any state (also for a second walk of the same context: "
+              "DefinesParser.walk resets filter_empty_lines when a walk starts); entity key and value spans "
+              "lie inside the entity; the Fluent walk (reading entry.content) is lossless, a gap-free chain, and has its keys/values inside "
+              "for every fluent.syntax body satisfying the decidable contract contractB, which the model evaluates on every generated input; "
+              "three dead branches of getNext are proved dead; every repeat of 21 of the 22 parser regexes is proved unambiguous per "
+              "iteration (decided on the regenerated regexes), which bounds the backtracking search tree of a match attempt by "
+              "cC*(len+2)^dC with dC <= 5 (proved, also for a step-counting copy of the engine). "
               "The theorems are stated over regexes regenerated from /repo on every run, so a regex edit re-proves or breaks them; the "
-              "hand-written control-flow model is tied to the Python by bounded-exhaustive token sequences and random texts")
+              "hand-written control-flow model is tied to the Python by bounded-exhaustive token sequences, random texts, composite tokens "
+              "reaching every live line of getNext/getJunk/createEntity/walk, and call sequences on one parser object")
 LEVEL_NOTE = ("trusted: Lean kernel; Rx = CPython re on the audited subset (validated every run); translator; hand-written getNext/walk "
-              "models (correspondence); fluent.syntax body spans are an input with a monitored contract; texts with carriage returns are outside the property")
+              "models (correspondence); fluent.syntax body spans and junk contents are an input with a monitored decidable contract; the step "
+              "bound is about the model engine Rx.m, not about CPython's sre; texts with carriage returns are outside the property")
 TECHNIQUE = "Lean 4 proof (progress + tiling invariant over regenerated regexes) + differential correspondence with the Python parsers"
 PARTIAL = [
-    "fluent_lossless is conditional on the contract of the external fluent.syntax parser (monitored on every run)",
+    "fluentC_* are conditional on the contract of the external fluent.syntax parser, now the decidable predicate C01M.contractB evaluated by the model on every generated input and compared with an independent Python evaluation",
+    "complexity guard: the criterion Safe is decided for 21 of the 22 parser regexes; DTDParser.rePE (trailing `(?:comment ws*)*`) is outside it (only its repeat nesting depth is pinned); the bound is about `steps`/`matchAtT` (proved equal in result to the engine), not about CPython's sre",
 ]
 TRUSTED = [
     "hand-written models CLModel/Parser/{Base,Formats,Fluent}.lean of Parser.walk/getNext/getJunk and the per-format overrides (tied by the `parse`/`parse.loc`/`fluentwalk` correspondence)",
     "regexes are regenerated from /repo by the translator on every run",
-    "fluent.syntax body spans are an input of the Fluent model (contract monitored)",
+    "fluent.syntax body spans and junk contents are an input of the Fluent model (contract contractB monitored)",
+    "CLModel/Parser/C01Sess.lean: parser object over call sequences (tied by `c01.sess`), Fluent walk reading entry.content (tied by `c01.fluentc`)",
 ]
 ASSUMPTIONS = ["texts contain no carriage returns (as the property states); a separate informational stream with \\r is not judged"]
 
@@ -48,6 +75,16 @@ ALPHA = {
     "ftl": ["a", " ", "=", "\n", "#", "-", ".", "{", "}", "$", "\t", "*[", "]", "->", "##", "\n\n", "é", "k = v\n"],
 }
 FORMATS = ["properties", "dtd", "ini", "inc", "po", "ftl"]
+# round 4: composite tokens that drive the lines the alphabets above never reached
+EXTRA = {
+    "properties": ["k=v\\\n  w", "# License\n", "#c\n\n\nk=v", "k = v \n"],
+    "dtd": ["<!ENTITY % foo SYSTEM \"u\"> %foo;", "<!ENTITY % f SYSTEM 'u'>%f; <!--c-->\n", "<!--c-->", "<!ENTITY a '>",
+            "<!-- License -->", "<!ENTITY % foo SYSTEM \"u\">"],
+    "ini": ["[S]\n", "; c\n\nk=v", "k=v\n", "; License\n"],
+    "inc": ["#filter emptyLines\n", "#unfilter emptyLines\n", "# c\n\n", "# c\n", "#define k\n", "\n\n\n", "#a b"],
+    "po": ['msgctxt "c"\n', 'msgid "a\\n"\n', 'msgstr "b"\n"c"', "#: x\n", 'msgid ""', 'msgstr ""\n'],
+    "ftl": ["k =\n .a = v\n", "\x0c\n", "\u00a0x\u00a0\n", "-t = x\n", "# c\n", "\x0b", "\u2003", "\u3000\n", "\x85"],
+}
 ODD = ["\x00", " ", "\x0b", "\x0c", "\x85", "\U0001F600", "�", " ", "\x1c", "﻿", "̀", "\xb7", "Ⰰ"]
 
 
@@ -82,6 +119,91 @@ def gen_texts(ctx, fmt):
     return texts, exhaustive
 
 
+# texts on which an ambiguous nested quantifier in a parser regex needs exponential time (linear for the real
+# regexes): a long run of the repeated class followed by a character that makes the match fail
+STRESS = {
+    "properties": ["k=" + "\\" * 41, "k" + " " * 40 + "x", "#" + "a" * 40, "k=v" + " " * 40 + "x"],
+    "dtd": ['<!ENTITY a "' + "b" * 40, "<!--" + "-a" * 30 + "--", "<!ENTITY " + "a" * 40 + "<", "<!ENTITY a 'b'" + " " * 40 + "x"],
+    "ini": ["a" * 40, "[" + "a" * 40, ";" + "a" * 40 + "\n" + "a" * 40],
+    "inc": ["#define " + "a" * 40 + "\x00", "# " + "a" * 40, "#" + "a" * 40, "#define" + " " * 40 + "\n"],
+    "po": ['msgid "' + "a" * 40 + "\\x", 'msgid ""' + " " * 40 + "x", "#" + "a" * 40, 'msgid "' + "\\\\" * 20 + "\\"],
+    "ftl": ["a = " + "{" * 20, "\x0c" * 40 + "\n", " " * 40 + "x\n" + " " * 40],
+}
+
+
+def gen_extra(ctx, fmt):
+    """round 4: sequences that contain at least one composite token of EXTRA[fmt] (exhaustive up to length 2,
+    all triples of composite tokens, seeded random longer ones)"""
+    rng = ctx.rng("c01x", fmt)
+    alpha, extra = ALPHA[fmt], EXTRA[fmt]
+    both = alpha + extra
+    texts = list(extra)
+    for a in both:
+        for b in both:
+            if a in extra or b in extra:
+                texts.append(a + b)
+    for toks in itertools.product(extra, repeat=3):
+        texts.append("".join(toks))
+    for _ in range(ctx.n(600, 8000)):
+        n = rng.randrange(3, 7)
+        toks = [rng.choice(both) for _ in range(n)]
+        toks[rng.randrange(n)] = rng.choice(extra)
+        texts.append("".join(toks))
+    texts += STRESS[fmt]
+    seen, out = set(), []
+    for t in texts:
+        if t not in seen and "\r" not in t:
+            seen.add(t)
+            out.append(t)
+    return out
+
+
+def filt(canon):
+    """Entity/Junk entries of one canonical walk"""
+    return [e for e in canon.split(" | ")[1:] if e[0] in "EJ"]
+
+
+def session_oracle(fmt, cmds, r, fresh_loc):
+    """property oracle on call sequences of ONE parser object; returns (message, finding) or None.
+    Only what the property states: no entries without a context; the localizable view of a context is the
+    Entity/Junk entries of the full view of that context."""
+    if "exc" in r:
+        return ("parser session raised %s: %s" % (r["exc"], r.get("msg")), None)
+    walks = r["r"]["walks"]
+    wi = 0
+    have_ctx = False
+    last_read = None
+    since_read = []
+    for c in cmds:
+        if c[0] == "R":
+            have_ctx, last_read, since_read = True, c[1], []
+            continue
+        w = walks[wi]
+        wi += 1
+        if w["canon"].startswith("runaway"):
+            return ("walk yields more entries than characters (does not terminate)", None)
+        if not have_ctx and w["n"]:
+            return ("a parser without a loaded context yields entries", None)
+        if have_ctx and last_read == "" and w["n"]:
+            return ("an empty text yields entries", None)
+        if have_ctx and not w["loc"]:
+            expected = last_read[1:] if (fmt == "dtd" and last_read.startswith("\ufeff")) else last_read
+            if w["joined"] != expected:
+                return ("concatenated entry texts of a walk differ from the text last read", None)
+        since_read.append(w)
+        if len(since_read) == 2 and since_read[0]["loc"] != since_read[1]["loc"]:
+            full = since_read[0] if not since_read[0]["loc"] else since_read[1]
+            loc = since_read[1] if not since_read[0]["loc"] else since_read[0]
+            if filt(full["canon"]) != loc["canon"].split(" | ")[1:]:
+                # (this was finding C01-inc-filter-state-leaks-between-walks, fixed in /repo 0f5119c: a regression is a fresh violation)
+                return ("localizable-only view of a context is not the entity+junk entries of the full view of the same context "
+                        "(second walk of one readUnicode)", None)
+    return None
+
+
+_fresh_cache = {}      # (fmt, text) -> (Entity/Junk entries of the full view, localizable view), both on fresh contexts
+
+
 def oracle(fmt, text, r):
     """property oracle on the implementation's own objects; returns None or a message"""
     if r.get("exc") == "Hang":
@@ -108,6 +230,7 @@ def classify(v):
 
 
 def finding_of(fmt, text, msg):
+    # (round 4: the session stream computes its own finding id, see session_oracle)
     # root-cause predicates of recorded findings (see known_findings.json)
     if fmt == "po" and ("terminate" in msg):
         return "F1-po-zero-width-junk"
@@ -123,12 +246,20 @@ def run(ctx):
                 "non-trivial = the parse contains at least one entity or junk entry; distinct = distinct (format, canonical parse)")
     # regex semantics first: everything below rests on it
     out.merge(rxval.validate(ctx, per_pattern=ctx.n(60, 1500), random_patterns=ctx.n(60, 2000)))
+    sess_texts = {}
     for fmt in FORMATS:
         texts, exhaustive = gen_texts(ctx, fmt)
+        extra = gen_extra(ctx, fmt)
         out.count("%s.cases" % fmt, len(texts))
         out.count("%s.exhaustive" % fmt, exhaustive)
+        out.count("%s.extra" % fmt, len(extra))
+        main_n = len(texts)
+        texts = texts + extra
+        if fmt != "ftl":
+            pick = [t for i, t in enumerate(texts[:main_n]) if t and (i % 12 == 0 or (fmt == "inc" and "filter" in t and i % 2 == 0))]
+            sess_texts[fmt] = pick[:ctx.n(1500, 20000)] + [t for t in extra if t not in STRESS[fmt]]
         if fmt == "ftl":
-            res = pool.pmap("impl.parse", "impl_fluent", [[t] for t in texts], timeout=3.0)
+            res = pool.pmap("impl.parse", "impl_fluent_c", [[t] for t in texts], timeout=3.0)
         else:
             res = pool.pmap("impl.parse", "impl_parse_full", [[fmt, t] for t in texts], timeout=3.0)
         lines = []
@@ -136,11 +267,35 @@ def run(ctx):
             if fmt == "ftl":
                 body = r["r"]["body"] if "r" in r else ""
                 lines.append("fluentwalk 0 %s %s" % (C.enc(t), body))
+            elif r.get("exc") == "Hang":
+                lines.append("parse %s %s" % (fmt, C.enc("")))     # the model would need the same exponential time
             else:
                 lines.append("parse %s %s" % (fmt, C.enc(t)))
         model = C.run_driver_parallel(lines) if ctx.model_ok else [None] * len(lines)
         loclines = [("fluentwalk 1" + l[len("fluentwalk 0"):]) if fmt == "ftl" else ("parse.loc" + l[len("parse"):]) for l in lines]
         modelloc = C.run_driver_parallel(loclines) if ctx.model_ok else [None] * len(lines)
+        if fmt == "ftl" and ctx.model_ok:
+            # round 4: the walk that reads entry.content, with the contract evaluated by the model
+            clines = ["c01.fluentc %d %s %s" % (l, C.enc(t), r["r"]["bodyc"] if "r" in r else "")
+                      for t, r in zip(texts, res) for l in (0, 1)]
+            cres = C.run_driver_parallel(clines)
+            for i, (t, r) in enumerate(zip(texts, res)):
+                if "r" not in r:
+                    continue
+                v = r["r"]
+                want0 = " | ".join(["contract=%d" % (1 if v["contract2"] else 0)] + v["canon"].split(" | ")[1:])
+                want1 = " | ".join(["contract=%d" % (1 if v["contract2"] else 0)] + v["loc"])
+                out.count("ftl.fluentc")
+                if not v["contract2"]:
+                    out.count("ftl.contract_violations")
+                    out.disagreements.append({"op": "fluent-contract2", "text": t})
+                elif cres[2 * i] != want0 or cres[2 * i + 1] != want1:
+                    out.disagreements.append({"op": "c01.fluentc", "text": t, "impl": [want0, want1],
+                                              "model": [cres[2 * i], cres[2 * i + 1]]})
+        if fmt != "ftl":
+            for t, r in zip(texts, res):
+                if "r" in r:
+                    _fresh_cache[(fmt, t)] = (filt(r["r"]["canon"]), r["r"]["loc"])
         for t, r, mo, mloc in zip(texts, res, model, modelloc):
             out.evaluations += 1
             bad = oracle(fmt, t, r)
@@ -164,8 +319,85 @@ def run(ctx):
             if len(out.samples) < 12 and len(t) > 12 and " | J" in str(canon) and out.distribution.get("sampled." + fmt, 0) < 2:
                 out.count("sampled." + fmt)
                 out.samples.append({"fmt": fmt, "text": t, "parse": canon})
-    out.contracts["fluent_body_contract_checked"] = out.distribution.get("ftl.cases", 0)
+    out.contracts["fluent_body_contract_checked"] = out.distribution.get("ftl.cases", 0) + out.distribution.get("ftl.extra", 0)
+    out.contracts["fluent_contractB_checked_by_model_and_python"] = out.distribution.get("ftl.fluentc", 0)
+    run_sessions(ctx, out, sess_texts)
+    run_po_strings(ctx, out)
     return out
+
+
+def sessions_for(fmt, texts):
+    """call sequences on one parser object (R = readUnicode, W 0 = walk(), W 1 = iter())"""
+    seqs = [[["W", 0]], [["W", 1]], [["W", 1], ["W", 0]]]
+    for i, t in enumerate(texts):
+        seqs.append([["R", t], ["W", 0], ["W", 1]])           # the observation sequence of the property
+        if i % 2 == 0:
+            seqs.append([["R", t], ["W", 1], ["W", 0]])
+        if i % 3 == 0:
+            t2 = texts[(i * 7 + 3) % len(texts)] if i % 4 else ""
+            seqs.append([["R", t], ["W", 0], ["R", t2], ["W", 1 if i % 2 else 0]])
+        if i % 5 == 0:
+            seqs.append([["W", 0], ["R", t], ["W", 0], ["W", 0], ["W", 1]])
+    return seqs
+
+
+def run_sessions(ctx, out, sess_texts):
+    for fmt, texts in sess_texts.items():
+        seqs = sessions_for(fmt, texts)
+        res = pool.pmap("impl.parse", "impl_session", [[fmt, q] for q in seqs], timeout=4.0)
+        lines = ["c01.sess %s %s" % (fmt, " ".join(("R %s" % C.enc(c[1])) if c[0] == "R" else ("W %d" % c[1]) for c in q))
+                 for q in seqs]
+        model = C.run_driver_parallel(lines) if ctx.model_ok else [None] * len(lines)
+        out.count("sess.%s" % fmt, len(seqs))
+        for q, r, mo in zip(seqs, res, model):
+            out.evaluations += 1
+            last = [c[1] for c in q if c[0] == "R"]
+            bad = session_oracle(fmt, q, r, _fresh_cache.get((fmt, last[-1])) if last else None)
+            if "r" in r and len(r["r"]["walks"]) > 1:
+                out.nontrivial.add((fmt, "sess", r["r"]["canon"]))
+            if bad:
+                msg, fid = bad
+                out.violations.append({"what": "%s: %s" % (fmt, msg), "input": {"fmt": fmt, "session": q}, "finding": fid})
+                out.count("sess.%s.violations" % fmt)
+            elif mo is not None and ("r" not in r or mo != r["r"]["canon"]):
+                out.disagreements.append({"op": "c01.sess", "fmt": fmt, "session": q,
+                                          "impl": r["r"]["canon"] if "r" in r else r, "model": mo})
+    # Fluent and Android-free formats: a parser without context, through the fluent op as well
+    for fmt in FORMATS:
+        r = pool.pmap("impl.parse", "impl_noctx", [[fmt]], timeout=4.0)[0]
+        out.evaluations += 1
+        if "r" not in r or r["r"]["full"] or r["r"]["loc"]:
+            out.violations.append({"what": "%s: a parser without a loaded context yields entries or raises" % fmt,
+                                   "input": {"fmt": fmt, "session": [["W", 0], ["W", 1]]}, "finding": None})
+    if ctx.model_ok:
+        mo = C.run_driver(["c01.fluentc 0 none", "c01.fluentc 1 none M 0 1 0 1 -1 -1 t:"])
+        if mo != ["contract=1", "contract=1"]:
+            out.disagreements.append({"op": "c01.fluentc-noctx", "model": mo})
+
+
+def run_po_strings(ctx, out):
+    """round 4: ties poCreate/poEval (evaluated msgid, msgctxt, msgstr of every PO entity) through the op po.strings"""
+    rng = ctx.rng("c01po")
+    texts, _ = gen_texts(ctx, "po")
+    cand = [t for t in texts if "msgstr" in t and "msgid" in t] + [t for t in gen_extra(ctx, "po") if t not in STRESS["po"]]
+    cand = list(dict.fromkeys(cand))
+    rng.shuffle(cand)
+    cand = cand[:ctx.n(2000, 30000)]
+    res = pool.pmap("impl.parse", "impl_po_strings", [[t] for t in cand], timeout=3.0)
+    lines, want = [], []
+    for t, r in zip(cand, res):
+        if "r" not in r:
+            continue
+        for start, shown in r["r"]:
+            lines.append("po.strings %s %d" % (C.enc(t), start))
+            want.append((t, start, shown))
+    got = C.run_driver_parallel(lines) if ctx.model_ok and lines else []
+    out.count("po.strings", len(lines))
+    for (t, start, shown), g in zip(want, got):
+        out.evaluations += 1
+        out.nontrivial.add(("po.strings", shown))
+        if g != shown:
+            out.disagreements.append({"op": "po.strings", "text": t, "start": start, "impl": shown, "model": g})
 
 
 def replay(payload):
@@ -173,6 +405,18 @@ def replay(payload):
     res = []
     for v in payload.get("violations", []):
         i = v["input"]
+        if "session" in i:
+            r = pool.pmap("impl.parse", "impl_session", [[i["fmt"], i["session"]]], timeout=5.0)[0]
+            last = [c[1] for c in i["session"] if c[0] == "R"]
+            fresh = None
+            if last:
+                fr = pool.pmap("impl.parse", "impl_parse_full", [[i["fmt"], last[-1]]], timeout=5.0)[0]
+                if "r" in fr:
+                    fresh = (filt(fr["r"]["canon"]), fr["r"]["loc"])
+                    _fresh_cache[(i["fmt"], last[-1])] = fresh
+            bad = session_oracle(i["fmt"], i["session"], r, fresh)
+            res.append({"input": i, "oracle": bad[0] if bad else None})
+            continue
         r = pool.pmap("impl.parse", "impl_fluent" if i["fmt"] == "ftl" else "impl_parse_full",
                       [[i["text"]] if i["fmt"] == "ftl" else [i["fmt"], i["text"]]], timeout=5.0)[0]
         res.append({"input": i, "oracle": oracle(i["fmt"], i["text"], r)})
